@@ -398,18 +398,60 @@ theorem chronoConv_sane (t : Int) (h : -4611686018427387904 ≤ t ∧ t < 461168
 theorem shiftF_new (δ : Int) (I : ObjIface σ) (id : Nat) (chk : Bool) :
     shiftF δ (FdtRecv.new I id chk) = FdtRecv.new I id chk := rfl
 
-theorem fdtEntry_shift (δ : Int) (I : ObjIface σ) (s : State σ) (id : Nat) :
-    fdtEntry I (shiftS δ s) id = (shiftS δ (fdtEntry I s id p).1, shiftF δ (fdtEntry I s id p).2) := by
+theorem shiftF_fti (δ : Int) (f : FdtRecv σ) : (shiftF δ f).fti = f.fti := by
+  unfold shiftF; split <;> rfl
+
+theorem shiftF_noteFti (δ : Int) (f : FdtRecv σ) (v : Option Fti) :
+    shiftF δ (f.noteFti v) = (shiftF δ f).noteFti v := by
+  cases f with
+  | mk fdtId obj st0 expires inst utf8 offset late check hasMeta bytes fti =>
+    cases fti <;> cases offset <;> rfl
+
+theorem skewOK_noteFti (δ : Int) (f : FdtRecv σ) (v : Option Fti) (h : SkewOK δ f) :
+    SkewOK δ (f.noteFti v) := by
+  have hf := noteFti_fields f v
+  rcases h with ⟨so, hso, hb⟩ | ⟨hnone, hrecv⟩
+  · left
+    refine ⟨so, ?_, hb⟩
+    unfold FdtRecv.signedOffset at hso ⊢
+    rw [hf.2.2.2.2.2.2.1, hf.2.2.2.2.2.2.2.1]; exact hso
+  · right
+    exact ⟨by rw [hf.2.2.2.2.2.2.1]; exact hnone, by rw [hf.2.2.1]; exact hrecv⟩
+
+theorem fdtEntry_shift (δ : Int) (I : ObjIface σ) (s : State σ) (id : Nat) (p : Pkt) :
+    fdtEntry I (shiftS δ s) id p = (shiftS δ (fdtEntry I s id p).1, shiftF δ (fdtEntry I s id p).2) := by
   unfold fdtEntry
   have h1 : (shiftS δ s).fdtReceivers = s.fdtReceivers.map (fun kf => (kf.1, shiftF δ kf.2)) := rfl
   have h2 : (shiftS δ s).cfg = s.cfg := rfl
   rw [h1, h2, alookup_map]
   cases alookup id s.fdtReceivers with
-  | some f => rfl
+  | some f =>
+    simp only [Option.map_some]
+    rw [shiftF_noteFti]
   | none =>
     simp only [Option.map_none]
-    rw [← shiftF_new δ I id s.cfg.expCheck, ainsert_map]
+    rw [shiftF_noteFti, shiftF_new, ← shiftF_new δ I id s.cfg.expCheck, ainsert_map]
     rfl
+
+theorem dropConflict_shift (δ : Int) (s : State σ) (p : Pkt) :
+    dropConflict (shiftS δ s) p = shiftS δ (dropConflict s p) := by
+  unfold dropConflict
+  cases p.fdtId with
+  | none => rfl
+  | some id =>
+    simp only []
+    have h1 : (shiftS δ s).fdtReceivers = s.fdtReceivers.map (fun kf => (kf.1, shiftF δ kf.2)) := rfl
+    rw [h1, alookup_map]
+    cases alookup id s.fdtReceivers with
+    | none => rfl
+    | some f =>
+      simp only [Option.map_some]
+      have hc : (shiftF δ f).ftiConflicts p = f.ftiConflicts p := by
+        unfold FdtRecv.ftiConflicts; rw [shiftF_fti]
+      rw [shiftF_st, hc]
+      split
+      · simp only [shiftS, aerase_map]
+      · rfl
 
 
 theorem map_dropLast' {α β} (g : α → β) (l : List α) : (l.map g).dropLast = l.dropLast.map g := by
@@ -474,9 +516,12 @@ theorem fdtDispatch_shift (δ : Int) (I : ObjIface σ) (s : State σ) (id : Nat)
     fdtDispatch I (shiftS δ s) id (shiftF δ f) (now + δ) = mapRes δ (fdtDispatch I s id f now) := by
   unfold fdtDispatch
   rw [shiftF_st]
+  have her : ({ shiftS δ s with fdtReceivers := aerase id (shiftS δ s).fdtReceivers } : State σ) =
+      shiftS δ { s with fdtReceivers := aerase id s.fdtReceivers } := by
+    simp only [shiftS, aerase_map]
   cases hst : f.st with
   | receiving => rfl
-  | error => rfl
+  | error => simp only []; rw [her]; rfl
   | complete => exact fdtCompleted_shift δ I s id
   | expired =>
     simp only []
@@ -499,7 +544,7 @@ theorem fdtDispatch_shift (δ : Int) (I : ObjIface σ) (s : State σ) (id : Nat)
         simp only []
         cases chronoConv (now - so) with
         | error w => rfl
-        | ok _ => rfl
+        | ok _ => simp only []; rw [her]; rfl
     · rw [hrecv] at hst; cases hst
 
 /-- packets of FDT instances carry a sane sender-current-time -/
@@ -607,6 +652,14 @@ theorem pushFdtObjP_shift (δ : Int) (I : ObjIface σ) (s : State σ) (p : Pkt) 
           rw [hst]
           exact fdtDispatch_shift δ I _ id f' now hn hn' hok'
 
+
+theorem pushFdtObj_shift (δ : Int) (I : ObjIface σ) (s : State σ) (p : Pkt) (now : Int) (ans : FdtAns)
+    (hn : TimeSane now) (hn' : TimeSane (now + δ))
+    (hsct : ∀ id, p.fdtId = some id → ∃ res, p.sct = some res ∧ 0 ≤ res ∧ res < 4294967296000000) :
+    pushFdtObj I (shiftS δ s) p (now + δ) ans = mapRes δ (pushFdtObj I s p now ans) := by
+  unfold pushFdtObj
+  rw [dropConflict_shift]
+  exact pushFdtObjP_shift δ I _ p now ans hn hn' hsct
 
 theorem updateExpiredAll_shift (δ : Int) (now : Int) (hn : TimeSane now) (hn' : TimeSane (now + δ)) :
     ∀ (l : List (Nat × FdtRecv σ)), (∀ kf ∈ l, SkewOK δ kf.2) →
@@ -722,7 +775,7 @@ theorem step_skewOK (δ : Int) (I : ObjIface σ) (s s' : State σ) (op : Op) (r 
     (hop : SkewHyp δ op) (h : step I s op = .ok (s', r, evs)) (hall : AllFdt (SkewOK δ) s) :
     AllFdt (SkewOK δ) s' := by
   obtain ⟨hn, hn', hsct⟩ := hop
-  refine (step_all I (SkewOK δ) s s' op r evs ?_ ?_ ?_ h hall).1
+  refine (step_all I (SkewOK δ) s s' op r evs (skewOK_noteFti δ) ?_ ?_ ?_ h hall).1
   · intro p now ans id _ _
     right
     exact ⟨rfl, rfl⟩
